@@ -331,4 +331,105 @@ theorem convertArgs_copies {V : Type} {dst : InputShape} {src : OutputShape}
   simp [hs]
 
 
+/-! ### two kinds whose field loaders differ (nested models of the respective kind) -/
+
+section
+variable {D V₁ V₂ : Type}
+
+/-- both field loaders fail, or both succeed with related values -/
+def OptRel (R : V₁ → V₂ → Prop) : Option V₁ → Option V₂ → Prop
+  | some a, some b => R a b
+  | none, none => True
+  | _, _ => False
+
+/-- the same field ids in the same order with related values -/
+def ArgsRel (R : V₁ → V₂ → Prop) : List (String × V₁) → List (String × V₂) → Prop
+  | [], [] => True
+  | a :: t₁, b :: t₂ => a.1 = b.1 ∧ R a.2 b.2 ∧ ArgsRel R t₁ t₂
+  | _, _ => False
+
+def Outcome.Rel (R : V₁ → V₂ → Prop) : Outcome V₁ → Outcome V₂ → Prop
+  | .ok a, .ok b => ArgsRel R a b
+  | .err e, .err e' => e = e'
+  | .noLoader, .noLoader => True
+  | _, _ => False
+
+def FieldRes.Rel (R : V₁ → V₂ → Prop) : FieldRes V₁ → FieldRes V₂ → Prop
+  | .arg a, .arg b => R a b
+  | .omitted, .omitted => True
+  | .missing k, .missing k' => k = k'
+  | .bad k, .bad k' => k = k'
+  | .unskippable, .unskippable => True
+  | _, _ => False
+
+variable {R : V₁ → V₂ → Prop} {ld₁ : Ty → D → Option V₁} {ld₂ : Ty → D → Option V₂}
+  {lit₁ : Scalar → V₁} {lit₂ : Scalar → V₂} {call₁ : Factory → V₁} {call₂ : Factory → V₂}
+
+theorem absentRes_rel (hlit : ∀ s, R (lit₁ s) (lit₂ s)) (hcall : ∀ f, R (call₁ f) (call₂ f)) (d : Dflt) :
+    FieldRes.Rel R (absentRes lit₁ call₁ d) (absentRes lit₂ call₂ d) := by
+  cases d with
+  | none => trivial
+  | value v => exact hlit v
+  | factory f => exact hcall f
+  | factorySelf f => trivial
+
+theorem fieldRes_rel (hld : ∀ ty d, OptRel R (ld₁ ty d) (ld₂ ty d)) (hlit : ∀ s, R (lit₁ s) (lit₂ s))
+    (hcall : ∀ f, R (call₁ f) (call₂ f)) (nm : String → Option String) (kvs : List (String × D)) (f : InSpec) :
+    FieldRes.Rel R (fieldRes ld₁ lit₁ call₁ nm kvs f) (fieldRes ld₂ lit₂ call₂ nm kvs f) := by
+  cases hr : f.required <;> cases hnm : nm f.id with
+  | none => simp [fieldRes, hnm, hr, FieldRes.Rel]
+  | some k =>
+    cases hl : kvs.lookup k with
+    | none =>
+      simp only [fieldRes, hnm, hl, hr]
+      first
+      | exact absentRes_rel hlit hcall f.default
+      | simp [FieldRes.Rel]
+    | some d =>
+      have := hld f.ty d
+      simp only [fieldRes, hnm, hl]
+      cases h1 : ld₁ f.ty d <;> cases h2 : ld₂ f.ty d <;> simp_all [OptRel, FieldRes.Rel]
+
+theorem FieldRes.Rel.missingOf {a : FieldRes V₁} {b : FieldRes V₂} (h : FieldRes.Rel R a b) :
+    a.missingOf = b.missingOf := by
+  cases a <;> cases b <;> simp_all [FieldRes.Rel, FieldRes.missingOf]
+
+theorem FieldRes.Rel.badOf {a : FieldRes V₁} {b : FieldRes V₂} (h : FieldRes.Rel R a b) :
+    a.badOf = b.badOf := by
+  cases a <;> cases b <;> simp_all [FieldRes.Rel, FieldRes.badOf]
+
+theorem argsRel_filterMap (specs : List InSpec) (g₁ : InSpec → FieldRes V₁) (g₂ : InSpec → FieldRes V₂)
+    (h : ∀ f, FieldRes.Rel R (g₁ f) (g₂ f)) :
+    ArgsRel R (specs.filterMap (fun f => (g₁ f).argOf f.id)) (specs.filterMap (fun f => (g₂ f).argOf f.id)) := by
+  induction specs with
+  | nil => trivial
+  | cons f rest ih =>
+    have hf := h f
+    simp only [List.filterMap_cons]
+    cases h1 : g₁ f <;> cases h2 : g₂ f <;> simp_all [FieldRes.Rel, FieldRes.argOf, ArgsRel]
+
+/-- **parametricity of the model loader in the field loaders** -/
+theorem loadSpecs_rel (hld : ∀ ty d, OptRel R (ld₁ ty d) (ld₂ ty d)) (hlit : ∀ s, R (lit₁ s) (lit₂ s))
+    (hcall : ∀ f, R (call₁ f) (call₂ f)) (nm : String → Option String) (specs : List InSpec) (inp : Input D) :
+    Outcome.Rel R (loadSpecs ld₁ lit₁ call₁ nm specs inp) (loadSpecs ld₂ lit₂ call₂ nm specs inp) := by
+  unfold loadSpecs
+  split
+  · trivial
+  · cases inp with
+    | notMapping => exact rfl
+    | mapping kvs =>
+      have hrel := fieldRes_rel hld hlit hcall nm kvs
+      have hm : specs.filterMap (fun f => (fieldRes ld₁ lit₁ call₁ nm kvs f).missingOf)
+          = specs.filterMap (fun f => (fieldRes ld₂ lit₂ call₂ nm kvs f).missingOf) :=
+        filterMap_congr_mem (fun f _ => (hrel f).missingOf)
+      have hb : specs.filterMap (fun f => (fieldRes ld₁ lit₁ call₁ nm kvs f).badOf)
+          = specs.filterMap (fun f => (fieldRes ld₂ lit₂ call₂ nm kvs f).badOf) :=
+        filterMap_congr_mem (fun f _ => (hrel f).badOf)
+      simp only [hm, hb]
+      split
+      · exact argsRel_filterMap specs _ _ hrel
+      · exact rfl
+
+end
+
 end Adaptix.Kinds
